@@ -25,8 +25,10 @@
 (*     floats of the universe forbids a tie that spans two different doubles, and forbids      *)
 (*     "2^53 ~ 2.0^53 ~ 2^53+1 but 2^53 < 2^53+1".                                             *)
 (* Mechanism level: CmpModelX = CmpModel with the int -> double conversion (round to nearest,  *)
-(* ties to even, 53 bits) made explicit; CmpModelFast = the tempting variant that compares two *)
-(* ints exactly before the conversion, which MC_Order shows to break transitivity.             *)
+(* ties to even, 53 bits; beyond the doubles: the infinity of the sign) made explicit;         *)
+(* CmpModelExact = the same with numbers compared exactly (also lawful: no coarse tie at all); *)
+(* CmpModelFast = the tempting variant that compares two ints exactly and everything else      *)
+(* through the doubles, which MC_Order shows to break transitivity.                            *)
 EXTENDS Order
 
 IsX(v)   == Tag(v) = "x"
@@ -102,7 +104,7 @@ SameForSetX(u, v) == IF IsX(u) \/ IsX(v)
 RefinedCmp(c, u, v) == IF c = 0 /\ (IsX(u) \/ IsX(v)) /\ IsFinNumber(u) /\ IsFinNumber(v) THEN ExactCmp(u, v) ELSE c
 
 \* ---- the documented mechanism with the conversion to double made explicit --------------------
-\* nearest double of a normal form (ints only: 53 significant bits, ties to even; no overflow below 2^1024)
+\* nearest double of a normal form (ints only: 53 significant bits, ties to even; exponent 1024 and more = no double)
 XInc(b, e) == IF \A k \in 1..Len(b) : b[k] = 1 THEN <<e + 1, <<1>>>>
               ELSE LET z == CHOOSE k \in 1..Len(b) : b[k] = 0 /\ \A j \in (k + 1)..Len(b) : b[j] = 1
                    IN <<e, Append(SubSeq(b, 1, z - 1), 1)>>
@@ -114,16 +116,21 @@ XRound(nf) == IF Len(nf[3]) <= 53 THEN nf
                       ELSE <<nf[1], nf[2], XStrip(head)>>
 AsDouble(v) == IF IsIntKind(v) THEN XRound(XNF(v)) ELSE XNF(v)
 IsNumberX(v) == IsNumber(v) \/ IsX(v)
-NumCmpX(u, v) == IF IsFinNumber(u) /\ IsFinNumber(v) THEN XNFCmp(AsDouble(u), AsDouble(v))
-                 ELSE IF IsX(u) THEN (IF IsNaN(v) \/ (IsInf(v) /\ Pay(v) > 0) THEN -1 ELSE 1)
-                 ELSE IF IsX(v) THEN (IF IsNaN(u) \/ (IsInf(u) /\ Pay(u) > 0) THEN 1 ELSE -1)
-                 ELSE NumCmp(u, v)
-NumCmpFast(u, v) == IF IsIntKind(u) /\ IsIntKind(v) THEN ExactCmp(u, v) ELSE NumCmpX(u, v)
+\* how = "double": every int is converted to the nearest double first, an int beyond the doubles ranks with the infinity
+\*                 of its sign (the code);  "exact": numbers are compared exactly (Python's own int / float comparison);
+\*       "fast":   two ints exactly, everything else through the doubles - the variant that is NOT a preorder
+XVal(how, v)   == IF how = "exact" THEN XNF(v) ELSE AsDouble(v)
+XClass(how, v) == IF IsNaN(v) THEN 3 ELSE IF IsInf(v) THEN (IF Pay(v) > 0 THEN 2 ELSE 0)
+                  ELSE LET d == XVal(how, v) IN IF how # "exact" /\ d[2] >= 1024 THEN (IF d[1] > 0 THEN 2 ELSE 0) ELSE 1
+NumCmpX(how, u, v) == IF how = "fast" /\ IsIntKind(u) /\ IsIntKind(v) THEN ExactCmp(u, v)
+                      ELSE IF XClass(how, u) # XClass(how, v) THEN Sign(XClass(how, u) - XClass(how, v))
+                      ELSE IF XClass(how, u) # 1 THEN 0
+                      ELSE XNFCmp(XVal(how, u), XVal(how, v))
 TypeRankX(v) == IF IsX(v) THEN 4 ELSE TypeRank(v)
 RECURSIVE CmpModelG(_, _, _), CmpArrG(_, _, _, _)
-CmpArrG(fast, xs, ys, k) == IF k > Len(xs) THEN 0
-                            ELSE LET c == CmpModelG(fast, xs[k], ys[k]) IN IF c # 0 THEN c ELSE CmpArrG(fast, xs, ys, k + 1)
-CmpModelG(fast, u, v) ==
+CmpArrG(how, xs, ys, k) == IF k > Len(xs) THEN 0
+                           ELSE LET c == CmpModelG(how, xs[k], ys[k]) IN IF c # 0 THEN c ELSE CmpArrG(how, xs, ys, k + 1)
+CmpModelG(how, u, v) ==
     IF PyIs(u, v) /\ ~IsNaN(u) THEN 0
     ELSE IF TypeRankX(u) # TypeRankX(v) THEN Sign(TypeRankX(u) - TypeRankX(v))
     ELSE IF Len0(u) # Len0(v) THEN Sign(Len0(u) - Len0(v))
@@ -131,13 +138,14 @@ CmpModelG(fast, u, v) ==
            [] Tag(u) = "b" -> Sign(Pay(u) - Pay(v))
            [] Tag(u) = "d" -> DateCmp(Pay(u), Pay(v))
            [] Tag(u) = "s" -> StrCmp(Pay(u), Pay(v))
-           [] IsNumberX(u) -> IF fast THEN NumCmpFast(u, v) ELSE NumCmpX(u, v)
-           [] Tag(u) \in {"t", "l"} -> CmpArrG(fast, Pay(u), Pay(v), 1)
+           [] IsNumberX(u) -> NumCmpX(how, u, v)
+           [] Tag(u) \in {"t", "l"} -> CmpArrG(how, Pay(u), Pay(v), 1)
            [] Tag(u) = "m" -> LET ku == [i \in 1..Len(Pay(u)) |-> VStr(Pay(u)[i][1])]
                                   kv == [i \in 1..Len(Pay(v)) |-> VStr(Pay(v)[i][1])]
-                                  c  == CmpArrG(fast, ku, kv, 1)
+                                  c  == CmpArrG(how, ku, kv, 1)
                               IN IF c # 0 THEN c
-                                 ELSE CmpArrG(fast, [i \in 1..Len(Pay(u)) |-> Pay(u)[i][2]], [i \in 1..Len(Pay(v)) |-> Pay(v)[i][2]], 1)
-CmpModelX(u, v)    == CmpModelG(FALSE, u, v)
-CmpModelFast(u, v) == CmpModelG(TRUE, u, v)
+                                 ELSE CmpArrG(how, [i \in 1..Len(Pay(u)) |-> Pay(u)[i][2]], [i \in 1..Len(Pay(v)) |-> Pay(v)[i][2]], 1)
+CmpModelX(u, v)     == CmpModelG("double", u, v)
+CmpModelExact(u, v) == CmpModelG("exact", u, v)
+CmpModelFast(u, v)  == CmpModelG("fast", u, v)
 =============================================================================
